@@ -37,7 +37,7 @@ type c09Round struct {
 type c09Case struct {
 	Kind   string     `json:"kind"`
 	Rounds []c09Round `json:"rounds,omitempty"`
-	Gated  string     `json:"gated,omitempty"` // detached-leaf | double-cleanup | cleanup-vs-insert
+	Gated  string     `json:"gated,omitempty"` // detached-leaf | double-cleanup | cleanup-vs-insert | cleanup-vs-retain | resub-vs-publish | dup-unsub-behind-writer
 }
 
 type c09RoundObs struct {
@@ -116,6 +116,9 @@ func (p *c09Prop) Gen(r *Rng, i int, tier string) interface{} {
 		}
 		if i%32 == 7 {
 			return &c09Case{Kind: "gated", Gated: "resub-vs-publish"}
+		}
+		if i%32 == 23 {
+			return &c09Case{Kind: "gated", Gated: "dup-unsub-behind-writer"}
 		}
 		return &c09Case{Kind: "gated", Gated: "cleanup-vs-insert"}
 	}
@@ -426,6 +429,15 @@ func (p *c09Prop) gatedRounds(kind string) []c09Round {
 			{Ops: []c01Op{{Op: "sub", F: "p/r", S: 3, QoS: 0, RH: 2}}, Probes: []string{"p/r", "p/q"}},
 			{Ops: []c01Op{{Op: "unsub", F: "p/q", S: 1}, {Op: "unsub", F: "p/q", S: 2}}, Probes: []string{"p/r", "p/q"}},
 		}
+	case "dup-unsub-behind-writer":
+		// s1 on p/q, s3 on p/r. Subscribe(s9, x/y) is held inside its Hash() call (it holds the writers' mutex);
+		// UnSubscribe(s1, p/q) arrives TWICE (a duplicate UNSUBSCRIBE, or a session clean-up racing an explicit one);
+		// s9 is released. s3 must still be reachable.
+		return []c09Round{
+			{Ops: []c01Op{{Op: "sub", F: "p/q", S: 1, QoS: 0, RH: 2}}},
+			{Ops: []c01Op{{Op: "sub", F: "p/r", S: 3, QoS: 0, RH: 2}}, Probes: []string{"p/r", "p/q"}},
+			{Ops: []c01Op{{Op: "sub", F: "x/y", S: 9, QoS: 0, RH: 2}, {Op: "unsub", F: "p/q", S: 1}, {Op: "unsub", F: "p/q", S: 1}}, Probes: []string{"p/r", "p/q", "x/y"}},
+		}
 	case "resub-vs-publish":
 		// s1 holds p/q and subscribes to it AGAIN; if that takes more than one step (more than one Hash() call), it
 		// is held in the middle while a publish to p/q is routed: s1 is subscribed all the time and must receive it
@@ -538,6 +550,24 @@ func (p *c09Prop) runGated(c *c09Case) interface{} {
 			return obs
 		}
 		obs.Rounds = append(obs.Rounds, ro(probe("p/r"), probe("p/q")))
+	case "dup-unsub-behind-writer":
+		s1, s3, s9 := mk(1, 0), mk(3, 0), mk(9, 1)
+		_ = e.prov.Subscribe(subReq("p/q", s1, 0))
+		obs.Rounds = append(obs.Rounds, ro())
+		_ = e.prov.Subscribe(subReq("p/r", s3, 0))
+		obs.Rounds = append(obs.Rounds, ro(probe("p/r"), probe("p/q")))
+		acked := make(chan struct{})
+		go func() { _ = e.prov.Subscribe(subReq("x/y", s9, 0)); close(acked) }()
+		if !wait(s9.reached, "the subscribe did not reach Hash()") {
+			return obs
+		}
+		u1 := during(func() { _ = e.prov.UnSubscribe(topicsTypes.UnSubscribeReq{Filter: "p/q", S: s1}) })
+		u2 := during(func() { _ = e.prov.UnSubscribe(topicsTypes.UnSubscribeReq{Filter: "p/q", S: s1}) })
+		close(s9.release)
+		if !wait(acked, "the held subscribe was not acknowledged") || !wait(u1, "unsubscribe not acknowledged") || !wait(u2, "duplicate unsubscribe not acknowledged") {
+			return obs
+		}
+		obs.Rounds = append(obs.Rounds, ro(probe("p/r"), probe("p/q"), probe("x/y")))
 	case "resub-vs-publish":
 		for k := 2; k <= 4; k++ {
 			f := fmt.Sprintf("p/h%d", k)
